@@ -440,7 +440,7 @@ def equivalent(x, y, /, loose=False):
 
     if loose:
         if np.issubdtype(dt, np.complexfloating):
-            return equivalent(x.real, y.real) & equivalent(x.imag, y.imag)
+            return equivalent(x.real, y.real, loose=True) & equivalent(x.imag, y.imag, loose=True)
 
         # TODO: Rec array handling
         return (x == y) | ((x != x) & (y != y))
